@@ -14,6 +14,11 @@
 //	LAUNCH := ok|die|slow   CFG := ok|stay|err   TR := ok|<EV>:stay|<EV>:err   KILL := ok|failed|delay   HOOK := ok|fail
 //	ROUND := (OP+)                                 the operations of a round are issued concurrently; a round ends when all returned
 //	OP    := (new K) | (ctl K EV) | (destroy K FORCE ALLOWRUNNING KEEP) | (cleanup) | (killenv K) | (rel K)
+//	       | (xfail K J UPD) | (afail K J UPD)     the executor / the agent of the task launched for role J of environment K fails
+//	                                               (Mesos FAILURE event; UPD=1: preceded by the terminal status updates of its tasks).
+//	                                               In the round of `(new K)` (after it, once at most): the failure hits while the creation
+//	                                               is inside CONFIGURE — the harness holds the CONFIGURE reaction of another task role
+//	                                               of K (one scripted to fail, else the first) on another host until the failure is noted
 //	EV    := START | STOP | CONFIGURE | RESET
 //
 // Host h1,h2 belong to detector ITS, h3 to TPC, h4 to TST. Environment K is
@@ -24,6 +29,8 @@
 //	(ROUNDOBS*)
 //	ROUNDOBS := ((RES*) SNAP (HK*))
 //	RES  := (ok STATE) | (ok) | (ok N) | (err CLASS) | (hang) | (crash)
+//	      | (lost K*)                              xfail / afail: the environments whose watcher reacted ("one of the critical tasks went
+//	                                               into ERROR state": GO_ERROR, STOP of the tasks still RUNNING), ascending
 //	SNAP := crashed | ((ENVOBS*) (ROSTER*) (DET*) (MT*) (CALL*))
 //	ENVOBS := (K STATE (DET*) (TN*))               listed environments: state, included detectors, referenced tasks
 //	ROSTER := (TN OWNER LOCKED STATE)              GetTasks + GetTask: owner = environment index or "-", role state or "-"
@@ -97,12 +104,17 @@ type Op struct {
 	Force bool
 	Allow bool
 	Keep  bool
+	J     int  // xfail / afail: role index
+	Upd   bool // xfail / afail: with the terminal status updates
 }
 
 type Scenario struct {
 	Reuse  bool
 	Envs   []Env
 	Rounds [][]Op
+	// CfgHold: environment -> task role whose CONFIGURE reaction is held at gate C<K> until the loss
+	// operation issued in the round of the creation has been noted by the core.
+	CfgHold map[int]int
 }
 
 func Parse(input string) (*Scenario, error) {
@@ -113,7 +125,7 @@ func Parse(input string) (*Scenario, error) {
 	if n.Len() != 3 {
 		return nil, fmt.Errorf("scenario needs 3 fields")
 	}
-	sc := &Scenario{Reuse: n.At(0).Bool()}
+	sc := &Scenario{Reuse: n.At(0).Bool(), CfgHold: map[int]int{}}
 	for _, e := range n.At(1).List {
 		if e.Len() != 3 {
 			return nil, fmt.Errorf("bad env %s", e)
@@ -160,6 +172,14 @@ func Parse(input string) (*Scenario, error) {
 					return nil, fmt.Errorf("bad op %s", o)
 				}
 				op.K, op.Force, op.Allow, op.Keep = o.At(1).Int(), o.At(2).Bool(), o.At(3).Bool(), o.At(4).Bool()
+			case "xfail", "afail":
+				if o.Len() != 4 {
+					return nil, fmt.Errorf("bad op %s", o)
+				}
+				op.K, op.J, op.Upd = o.At(1).Int(), o.At(2).Int(), o.At(3).Bool()
+				if op.K >= 0 && op.K < len(sc.Envs) && (op.J < 0 || op.J >= len(sc.Envs[op.K].Roles) || sc.Envs[op.K].Roles[op.J].Kind == "P") {
+					return nil, fmt.Errorf("op %s names no task role", o)
+				}
 			case "cleanup":
 			default:
 				return nil, fmt.Errorf("bad op %s", o)
@@ -173,6 +193,22 @@ func Parse(input string) (*Scenario, error) {
 				}
 				created[op.K] = true
 				newHere[op.K] = true
+			} else if (op.Kind == "xfail" || op.Kind == "afail") && newHere[op.K] {
+				// the loss hits the creation inside CONFIGURE: another task role on another host holds the configuration
+				if _, dup := sc.CfgHold[op.K]; dup {
+					return nil, fmt.Errorf("op %s: one loss per creation round", o)
+				}
+				roles := sc.Envs[op.K].Roles
+				hold := -1
+				for i, ro := range roles {
+					if ro.Kind == "T" && i != op.J && ro.Host != roles[op.J].Host && (hold < 0 || (roles[hold].Cfg == "ok" && ro.Cfg != "ok")) {
+						hold = i
+					}
+				}
+				if hold < 0 {
+					return nil, fmt.Errorf("op %s: no task role on another host to hold the configuration", o)
+				}
+				sc.CfgHold[op.K] = hold
 			} else if op.Kind != "cleanup" && op.Kind != "rel" && (!created[op.K] || newHere[op.K]) {
 				return nil, fmt.Errorf("op %s on an environment not created in an earlier round", o)
 			}
@@ -340,11 +376,19 @@ func Run(input string) (string, error) {
 			case "slow":
 				w.SetOutcome(sel, sim.EvLaunch, sim.Outcome{Kind: sim.OK, Gate: fmt.Sprintf("L%d", k)})
 			}
+			cfgGate := ""
+			if h, ok := sc.CfgHold[k]; ok && h == j {
+				cfgGate = fmt.Sprintf("C%d", k)
+			}
 			switch ro.Cfg {
 			case "stay":
-				w.SetOutcome(sel, "CONFIGURE", sim.Outcome{Kind: sim.FailStay})
+				w.SetOutcome(sel, "CONFIGURE", sim.Outcome{Kind: sim.FailStay, Gate: cfgGate})
 			case "err":
-				w.SetOutcome(sel, "CONFIGURE", sim.Outcome{Kind: sim.FailError})
+				w.SetOutcome(sel, "CONFIGURE", sim.Outcome{Kind: sim.FailError, Gate: cfgGate})
+			default:
+				if cfgGate != "" {
+					w.SetOutcome(sel, "CONFIGURE", sim.Outcome{Kind: sim.OK, Gate: cfgGate})
+				}
 			}
 			if i := strings.Index(ro.Tr, ":"); i > 0 {
 				kind := sim.FailStay
@@ -603,8 +647,192 @@ func (r *runner) do(op Op) (*sx.Node, error) {
 	case "rel":
 		r.w.Release(fmt.Sprintf("L%d", op.K))
 		return sx.L(sx.A("ok")), nil
+	case "xfail", "afail":
+		return r.lose(op)
 	}
 	return nil, fmt.Errorf("bad op")
+}
+
+// watcherLine is what Environment.subscribeToWfState logs when the workflow of a
+// successfully created environment reports ERROR for the first time (0.5 s later it
+// sends GO_ERROR and STOPs the tasks that are still RUNNING).
+const watcherLine = "one of the critical tasks went into ERROR state"
+
+// watcherFired counts those lines per environment id in the core's log.
+func (r *runner) watcherFired() map[string]int {
+	out := map[string]int{}
+	b, _ := os.ReadFile(r.w.CoreLog())
+	for _, l := range strings.Split(string(b), "\n") {
+		if !strings.Contains(l, watcherLine) {
+			continue
+		}
+		i := strings.Index(l, "partition=")
+		if i < 0 {
+			continue
+		}
+		id := l[i+len("partition="):]
+		if j := strings.IndexAny(id, " \t"); j >= 0 {
+			id = id[:j]
+		}
+		out[strings.Trim(id, "\"")]++
+	}
+	return out
+}
+
+// lose: the executor (xfail) or the agent (afail) of the latest launch for role J
+// of environment K that has not ended fails: FAILURE event, with Upd preceded by the
+// terminal status updates of every task it ran. The core runs one executor per
+// agent, so either way every task on that host is hit. Nothing is injected if
+// there is no such task. The call returns when the core has taken note (every
+// task it held locked on that executor / agent is reported unlocked) and — for every
+// listed environment with a critical task among them whose workflow was not in
+// ERROR before — when its watcher has reacted and the environment shows ERROR.
+// Whether a watcher reacts is decided by the core; an expected reaction that does
+// not come within the ceiling makes the case inconclusive.
+func (r *runner) lose(op Op) (*sx.Node, error) {
+	infra := func(what string, err error) (*sx.Node, error) {
+		return nil, &sim.InfraError{What: fmt.Sprintf("op %+v: %s", op, what), Err: err}
+	}
+	inCreation := ""
+	if r.envID(op.K) == "" {
+		if _, ok := r.sc.CfgHold[op.K]; !ok {
+			return sx.L(sx.A("lost")), nil // never created
+		}
+		// the creation is in flight in this round: wait until it is parked inside CONFIGURE and learn its id
+		gate := fmt.Sprintf("C%d", op.K)
+		if err := sim.Poll("creation parked at its CONFIGURE gate", Ceiling, func() (bool, error) { return r.w.Master.Held(gate) > 0, nil }); err != nil {
+			r.w.Release(gate)
+			return nil, err
+		}
+		defer r.w.Release(gate)
+		c, cancel := ctx()
+		er, err := r.w.Client().GetEnvironments(c, &pb.GetEnvironmentsRequest{ShowAll: true})
+		cancel()
+		if err != nil {
+			return infra("GetEnvironments during a creation", err)
+		}
+		r.mu.Lock()
+		var unknown []string
+		for _, e := range er.GetEnvironments() {
+			if _, ok := r.ids[e.GetId()]; !ok {
+				unknown = append(unknown, e.GetId())
+			}
+		}
+		if len(unknown) == 1 {
+			r.ids[unknown[0]] = op.K
+			r.idOf[op.K] = unknown[0]
+			inCreation = unknown[0]
+		}
+		r.mu.Unlock()
+		if inCreation == "" {
+			return infra(fmt.Sprintf("%d unnamed environments listed during the creation", len(unknown)), nil)
+		}
+	}
+	names := r.names()
+	var vic *sim.TaskRecord
+	for _, t := range r.w.Tasks() {
+		if n, ok := names[t.TaskID]; ok && n.k == op.K && n.j == op.J && !t.Terminal {
+			tt := t
+			vic = &tt
+		}
+	}
+	if vic == nil {
+		return sx.L(sx.A("lost")), nil
+	}
+	c, cancel := ctx()
+	defer cancel()
+	cl := r.w.Client()
+	hit := func(t *pb.ShortTaskInfo) bool {
+		di := t.GetDeploymentInfo()
+		if op.Kind == "xfail" {
+			return di.GetAgentId() == vic.AgentID && di.GetExecutorId() == vic.ExecutorID
+		}
+		return di.GetAgentId() == vic.AgentID
+	}
+	tr, err := cl.GetTasks(c, &pb.GetTasksRequest{})
+	if err != nil {
+		return infra("GetTasks", err)
+	}
+	locked := map[string]bool{}
+	expect := map[string]bool{} // environment ids whose watcher is expected to react
+	for _, t := range tr.GetTasks() {
+		if !hit(t) || !t.GetLocked() {
+			continue
+		}
+		locked[t.GetTaskId()] = true
+		if !t.GetCritical() {
+			continue
+		}
+		g, err := cl.GetTask(c, &pb.GetTaskRequest{TaskId: t.GetTaskId()})
+		if err != nil {
+			return infra("GetTask", err)
+		}
+		eid := g.GetTask().GetEnvId()
+		if eid == "" || expect[eid] || eid == inCreation { // a creation has not subscribed its watcher yet
+			continue
+		}
+		ge, err := cl.GetEnvironment(c, &pb.GetEnvironmentRequest{Id: eid, ShowWorkflowTree: true})
+		if err != nil {
+			continue // not listed (any more): nobody watches
+		}
+		if ge.GetWorkflow().GetState() != "ERROR" && ge.GetEnvironment().GetCurrentTransition() == "" {
+			expect[eid] = true
+		}
+	}
+	before := r.watcherFired()
+	if op.Kind == "xfail" {
+		r.w.Master.InjectExecutorFailure(vic.AgentID, vic.ExecutorID, 9, op.Upd)
+	} else {
+		r.w.Master.InjectAgentFailure(vic.AgentID, op.Upd)
+	}
+	if err := sim.Poll("tasks of the failed executor/agent reported unlocked", Ceiling, func() (bool, error) {
+		c, cancel := ctx()
+		defer cancel()
+		tr, err := cl.GetTasks(c, &pb.GetTasksRequest{})
+		if err != nil {
+			return false, &sim.InfraError{What: "GetTasks", Err: err}
+		}
+		for _, t := range tr.GetTasks() {
+			if locked[t.GetTaskId()] && t.GetLocked() {
+				return false, nil
+			}
+		}
+		return true, nil
+	}); err != nil {
+		return nil, err
+	}
+	var ks []int
+	for eid := range expect {
+		eid := eid
+		if err := sim.Poll("environment watcher reacts to the lost critical task", Ceiling, func() (bool, error) {
+			if r.watcherFired()[eid] <= before[eid] {
+				return false, nil
+			}
+			c, cancel := ctx()
+			defer cancel()
+			ge, err := cl.GetEnvironment(c, &pb.GetEnvironmentRequest{Id: eid})
+			if err != nil {
+				return true, nil // deleted meanwhile
+			}
+			return ge.GetEnvironment().GetState() == "ERROR", nil
+		}); err != nil {
+			return nil, err
+		}
+	}
+	after := r.watcherFired()
+	r.mu.Lock()
+	for eid, n := range after {
+		if k, ok := r.ids[eid]; ok && n > before[eid] {
+			ks = append(ks, k)
+		}
+	}
+	r.mu.Unlock()
+	sort.Ints(ks)
+	res := sx.L(sx.A("lost"))
+	for _, k := range ks {
+		res.Add(sx.I(k))
+	}
+	return res, nil
 }
 
 // envTaskIDs: ids of the tasks launched with the label of environment k (master's table).
